@@ -64,6 +64,9 @@ def menu():
     # a chunked urlencoded form (no Content-Length) read through request.forms
     for x in APPS:
         m.append(('serve', x, 'cform', None))
+    # a handler that reads its body before and after another application served a request with a body
+    for x, y in (('A', 'B'), ('B', 'D'), ('D', 'A'), ('A', None)):
+        m.append(('serve', x, 'pbody', y))
     return m + menu_errors()
 
 
@@ -90,6 +93,8 @@ class World:
         self.apps = {'A': om.Ombott({'max_body_size': 8}), 'B': om.Ombott({'max_body_size': 8}), 'D': om.default_app()}
         self.apps['D'].setup({'max_body_size': 8})
         self.obs = []          # (app name, request id, tag, observation)
+        self.served = []       # application names in the order their requests started
+        self.hooklog = []      # names logged by the before_request hook each application registered for itself
         self.counter = 0
         self.pending = {}      # app name -> nested op for its next request
         for name, app in self.apps.items():
@@ -139,6 +144,16 @@ class World:
             return app.request.body.read()
         app.route('/b/<rid>', 'POST', body)
 
+        def pbody(rid):
+            # the handler reads its body, lets another application serve a request with a body of its own, and reads again
+            b1 = app.request.body.read()
+            op = w.pending.pop((name, rid), None)
+            inner = w.request(op[1], None, 'small')[1][2] if op and op[1] else b'-'
+            b2 = app.request.body.read()
+            return b1 + b'|' + inner + b'|' + b2
+        app.route('/pb/<rid>', 'POST', pbody)
+        app.add_hook('before_request', lambda: w.hooklog.append(name))
+
         def form(rid):
             return repr((sorted(app.request.forms.items()), sorted(app.request.params.items())))
         app.route('/f/<rid>', 'POST', form)
@@ -166,9 +181,16 @@ class World:
     def request(self, name, op, kind='plain'):
         self.counter += 1
         rid = str(self.counter)
+        self.served.append(name)
         if kind != 'plain':
             h = {'Accept': 'application/json'} if kind == 'badj' else {}
-            if kind == 'cform':
+            if kind == 'small':
+                env = wsgi.environ('POST', f'/b/{rid}', qs='who=' + name, body=b'in' + name.encode() + rid.encode(), headers=h)
+            elif kind == 'pbody':
+                if op:
+                    self.pending[(name, rid)] = op
+                env = wsgi.environ('POST', f'/pb/{rid}', qs='who=' + name, body=b'my' + name.encode() + rid.encode(), headers=h)
+            elif kind == 'cform':
                 fb = b's=%s%s' % (name.encode(), rid.encode())          # within max_body_size
                 raw = b'%x\r\n%s\r\n0\r\n\r\n' % (len(fb), fb)
                 env = wsgi.environ('POST', f'/f/{rid}', qs='who=' + name, body=raw, chunked=True, ctype='application/x-www-form-urlencoded', headers=h)
@@ -201,6 +223,8 @@ class World:
             return None
         if n in ('badj', 'badh', 'big', 'cform'):
             return self.request(x, None, n)
+        if n == 'pbody':
+            return self.request(x, ('pbody', y), 'pbody')
         if kind == 'outside':
             # between requests: copying the request object of an idle application, then looking at it again
             app = self.apps[x]
@@ -225,7 +249,10 @@ def expected_response(name, rid, nested=None):
                             ('Set-Cookie', f'c{name}={rid}')), body)
 
 
-def judge_world(w, results):
+def judge_world(w, results, threaded=False):
+    if (sorted(w.hooklog) != sorted(w.served)) if threaded else (w.hooklog != w.served):
+        return 'foreign-hook', (f'requests were served by {w.served!r}; the before_request hooks that each application registered for itself '
+                                f'fired as {w.hooklog!r}')
     for name, rid, tag, o in w.obs:
         exp = expected_obs(name, rid)[tag]
         if o != exp:
@@ -271,6 +298,13 @@ def run_history(hist):
                 exp = ('303 See Other', (('X-App', name + rid), ('Location', f'http://{name.lower()}.test/next/{rid}'), ('Content-Length', '0'),
                                          ('Content-Type', 'text/html; charset=UTF-8'), ('Set-Cookie', f'c{name}={rid}')), b'')
             else:
+                if k == 'pbody':
+                    mine = b'my' + name.encode() + rid.encode()
+                    if resp[0] != '200 OK' or not (resp[2].startswith(mine + b'|') and resp[2].endswith(b'|' + mine)):
+                        v = ('body-changed', f'application {name}, request {rid}: the handler read its body before and after a nested request of another '
+                                             f'application; it saw {resp[2]!r} (its body is {mine!r}), status {resp[0]}')
+                        break
+                    continue
                 exp = expected_response(name, rid, k) if k not in ('badj', 'badh', 'big', 'cform') else lone_response(name, k, rid)
             if resp != exp:
                 v = ('response', f'application {name}, request {rid} answered {resp!r}; alone it answers {exp!r}')
@@ -301,7 +335,7 @@ def judge_threads(pair, x):
     for t, e in x.errors.items():
         return 'thread-error', f'thread {t} raised {type(e).__name__}: {e}'
     w = x.results['world']
-    v = judge_world(w, [])
+    v = judge_world(w, [], threaded=True)
     if v:
         return v
     for t, name in enumerate(pair):
